@@ -404,7 +404,7 @@ func recordH3(r *hk.Run, o h3obs) {
 		Call: o.Call, CallErr: o.CallErr, Body: o.Body, BodyErr: o.BodyErr, Returned: o.Returned, Quiesced: o.Quiesced,
 		Stuck: o.Stuck, Leaked: o.Leaked, ReqBody: o.ReqBody, ReqBodyClosed: o.ReqBodyClosed, ReadsAfter: o.ReadsAfter,
 		FollowOK: o.FollowOK, FollowErr: o.FollowErr, Complete: o.Complete, Harness: o.Harness})
-	if o.Harness == "" && o.Returned && o.Arrived && !o.Complete && !o.Racy && o.Kind != "none" && !realTimer(o.Kind) && !o.PeerSawCancel {
+	if o.Harness == "" && o.Returned && o.Arrived && !o.Complete && !o.Racy && o.Kind != "none" && !realTimer(o.Kind) && !o.PeerSawCancel && !o.Spec.EarlyRsp {
 		r.Fail(hk.Failure{Sig: fmt.Sprintf("peer-not-told:h3:%s:%s:after=%s", o.Spec.Name, o.Kind, o.StepName),
 			What: "the request stream was not cancelled towards the peer (no STOP_SENDING / RESET_STREAM): the handler kept running", Input: o})
 	}
@@ -454,7 +454,7 @@ func emitH3(o h3obs) string {
 	}
 	told := "None"
 	// whether the handler saw the cancellation is only meaningful while it was still running
-	if o.Arrived && !o.Complete && !o.Racy && !realTimer(o.Kind) && o.Kind != "none" {
+	if o.Arrived && !o.Complete && !o.Racy && !realTimer(o.Kind) && o.Kind != "none" && !o.Spec.EarlyRsp {
 		told = "(Some " + hk.CoqBool(o.PeerSawCancel) + ")"
 	}
 	inj := []string{}
